@@ -131,7 +131,8 @@ FirstValueStays   == [][\A c \in Coll, k \in Key : (cs[c].st # "idle" /\ cs'[c].
                           (Readable(c, k)' /\ Lookup(c, k)' = Lookup(c, k))]_vars
 HeadersPreserved  == [][file.exists => file'.exists /\ file'.hdr = file.hdr]_vars
 RecordsImmutable  == [][\A i \in 1..Len(file.recs) : i <= Len(file'.recs) /\ file'.recs[i] = file.recs[i]]_vars
-KV == INSTANCE KVMap WITH store <- [exists |-> file.exists, hdr |-> file.hdr, map |-> MapOf(file.recs)], dummy <- 0
+KV == INSTANCE KVMap WITH store <- [exists |-> file.exists, hdr |-> file.hdr, map |-> MapOf(file.recs)], dummy <- 0,
+                         AllowClear <- FALSE
 (* several records may reach the file in one flush: the map is insert-only, step-wise refinement holds per record *)
 InsertOnly == [][\A k \in KeysOf(file.recs) : k \in KeysOf(file'.recs) /\ MapOf(file'.recs)[k] = MapOf(file.recs)[k]]_vars
 =============================================================================
